@@ -308,6 +308,60 @@ Definition ss_tpd (d p : list R) : R := 1 - rsum (ss_map d p).
 Definition ss_err (d p w : list R) : R :=
   let y := ss_map d p in let s := rsum y in rsum (map2 (fun y w => Rabs (y / s - w)) y w).
 
+(** * trial phases of [define_trial_state] (lines 63-92) *)
+(** X_DOMINANT *)
+Definition x_dominant : R := 99 / 100.
+Fixpoint trial_liquid_from (i k : nat) (f : R) (z : list R) : list R :=
+  match z with
+  | [] => []
+  | zi :: z' => (if Nat.eqb i k then x_dominant else zi * f) :: trial_liquid_from (S i) k f z'
+  end.
+(** nearly pure component k (created LIQUID-like): x_k = 0.99, the others share 0.01 in the proportions of the feed *)
+Definition trial_liquid (z : list R) (k : nat) : list R :=
+  trial_liquid_from 0 k ((1 - x_dominant) / (rsum z - nth k z 0)) z.
+(** ideal-vapour estimate (created VAPOUR-like): x_i proportional to z_i phi_i(z) *)
+Definition trial_vapor_amounts (z pz : list R) : list R := map2 (fun z p => exp p * z) z pz.
+Definition trial_vapor (z pz : list R) : list R :=
+  let y := trial_vapor_amounts z pz in map (fun v => v / rsum y) y.
+
+(** the vapour-like trial is one substitution step from an ideal gas (ln phi = 0): W = exp (d - 0) *)
+Lemma trial_vapor_is_substitution z pz :
+  Forall (fun v => 0 < v) z -> length pz = length z ->
+  trial_vapor_amounts z pz = ss_map (dvec z pz) (map (fun _ => 0) z).
+Proof.
+  intros Hz. revert pz. induction Hz as [|z0 z Hz0 _ IH]; intros [|p0 pz] Hl; try discriminate; [reflexivity|].
+  cbn [trial_vapor_amounts ss_map dvec map2 map]. f_equal.
+  - replace (ln z0 + p0 - 0) with (p0 + ln z0) by ring. rewrite exp_plus, exp_ln by assumption. reflexivity.
+  - apply IH. cbn in Hl. lia.
+Qed.
+
+Lemma trial_liquid_from_sum f k z : forall i,
+  rsum (trial_liquid_from i k f z) =
+  if andb (Nat.leb i k) (Nat.ltb k (i + length z)) then x_dominant + f * (rsum z - nth (k - i) z 0) else f * rsum z.
+Proof.
+  induction z as [|z0 z IH]; intros i.
+  - cbn [trial_liquid_from rsum length]. rewrite Nat.add_0_r.
+    destruct (Nat.leb i k) eqn:E1; destruct (Nat.ltb k i) eqn:E2; cbn [andb]; try ring.
+    exfalso. apply Nat.leb_le in E1. apply Nat.ltb_lt in E2. lia.
+  - cbn [trial_liquid_from rsum length]. rewrite IH. destruct (Nat.eqb_spec i k) as [->|Hne].
+    + replace (k - k)%nat with 0%nat by lia. cbn [nth].
+      rewrite Nat.leb_refl. destruct (Nat.leb_spec (S k) k); [lia|]. cbn [andb].
+      destruct (Nat.ltb_spec k (k + S (length z))); [|lia]. ring.
+    + destruct (Nat.leb_spec i k), (Nat.leb_spec (S i) k); try lia; cbn [andb].
+      * replace (i + S (length z))%nat with (S i + length z)%nat by lia.
+        destruct (Nat.ltb_spec k (S i + length z)).
+        -- replace (k - i)%nat with (S (k - S i)) by lia. cbn [nth]. ring.
+        -- ring.
+      * ring.
+Qed.
+
+(** the nearly pure trial composition is normalised *)
+Lemma trial_liquid_normalized z k : (k < length z)%nat -> rsum z - nth k z 0 <> 0 -> rsum (trial_liquid z k) = 1.
+Proof.
+  intros Hk Hne. unfold trial_liquid. rewrite trial_liquid_from_sum. cbn [Nat.leb].
+  destruct (Nat.ltb_spec k (0 + length z)); [|lia]. cbn [andb]. rewrite Nat.sub_0_r. unfold x_dominant. field. exact Hne.
+Qed.
+
 Lemma ss_map_stationary d p : length d = length p -> stationary (zip3 (ss_map d p) p d).
 Proof.
   revert p. induction d as [|d0 d IH]; intros [|p0 p] H; try discriminate; cbn; constructor.
@@ -352,10 +406,10 @@ Definition newton_residual (eta : R) (W P d Y : list R) (dphi : list (list R)) (
   dot (hess_row eta sqW (nth i sqW 0) (nth i g 0) i (nth i dphi [])) (newton_delta W Y) - nth i (newton_grad W P d) 0.
 
 Ltac tpd_interval :=
-  unfold tpd_of, tm_of, ss_tpd, ss_err, newton_err, newton_residual;
-  unfold ss_map, newton_grad, newton_delta, hess_row, dot, dvec, tpd, tm, total, amounts;
+  unfold tpd_of, tm_of, ss_tpd, ss_err, newton_err, newton_residual, trial_vapor, trial_liquid;
+  unfold ss_map, newton_grad, newton_delta, hess_row, dot, dvec, tpd, tm, total, amounts, trial_vapor_amounts, x_dominant;
   unfold gent, dy_R;
-  cbn [zip3 map2 map rsum cw cp cd fst snd nth hess_row_from Nat.eqb];
+  cbn [zip3 map2 map rsum cw cp cd fst snd nth hess_row_from trial_liquid_from Nat.eqb];
   interval with (i_prec 90).
 
 (** * executable models of the discrete logic (over Q) *)
